@@ -10,7 +10,7 @@
    case by Corr.C09 (Spec/TokenPos.v). *)
 From Coq Require Import List Arith Lia.
 From PM Require Import Model.Data Model.Mark Model.Tree Spec.Tokens
-  Proofs.ReplaceValid Proofs.SliceSides Proofs.TokenBasics Proofs.PathTokens Proofs.ReplaceTokens.
+  Proofs.ReplaceValid Proofs.SliceSides Proofs.TokenBasics Proofs.PathTokens Proofs.ReplaceTokens Proofs.Accessors.
 Import ListNotations.
 
 Theorem C09_every_position_resolves : forall s doc pos,
@@ -57,3 +57,19 @@ Theorem C09_parent_offset : forall s doc pos r,
     after_p s [(parent, i, o)] (rp_text_offset r) = skipn (rp_parent_offset r) (ftoks s (node_content parent)).
 Proof. exact resolve_last. Qed.
 Print Assumptions C09_parent_offset.
+
+(* before / start / end / after of every ancestor below the root: the ancestor spans the balanced block
+   open :: content ++ [close] of the document's tokens; before is the index of its open token, start the index
+   of its first content token, end the index of its close token, after the index behind it, and the position
+   lies between start and end *)
+Theorem C09_ancestor_accessors : forall s doc pos r d nd,
+  resolve s doc pos = Ok r -> rp_node r (S d) = Ok nd ->
+  exists X Y,
+    ftoks s (node_content doc) = X ++ open_tok nd :: ftoks s (node_content nd) ++ TClose :: Y /\
+    rp_before r (S d) = Ok (length X) /\
+    rp_start r (S d) = Ok (length X + 1) /\
+    rp_end s r (S d) = Ok (length X + 1 + frag_size s (node_content nd)) /\
+    rp_after s r (S d) = Ok (length X + 2 + frag_size s (node_content nd)) /\
+    length X + 1 <= pos /\ pos <= length X + 1 + frag_size s (node_content nd).
+Proof. exact ancestor_span. Qed.
+Print Assumptions C09_ancestor_accessors.
